@@ -23,7 +23,9 @@ def generate(R, tier):
         # signatures with every flag-affecting quirk so that impersonation has to set/clear PSH, URG, ACK, ...
         c["sigs"] = ["*:64:0:*:mss*10,6:mss,sok,ts,nop,ws:df,id+%s:%s" % (q, pc) for q in ("", ",pushf+", ",urgf+", ",ack-", ",seq-", ",ecn", ",uptr+")
                      for pc in ("0", "*", "+")]
-        c["flagsets"] = [R.choice([0, 0x08, 0x20, 0x40, 0xC0]) for _ in c["pkts"]]
+        # extra flag bits; values with 0x1000 REPLACE the flags: packets that are no SYN / SYN+ACK at all (pure ACK, data, FIN, RST) - calls refuse some of
+        # them, and a refusal (like a success) leaves the caller's objects alone; impersonate_tcp returns a NEW packet for every base it accepts
+        c["flagsets"] = [R.choice([0, 0, 0x08, 0x20, 0x40, 0xC0, 0x01, 0x04, 0x1010, 0x1018, 0x1011, 0x1004, 0x1014]) for _ in c["pkts"]]
         # payloads that are NOT complete messages (headers cut before the blank line, nothing, noise): the call fails, the buffer must stay as it was
         base = bytes.fromhex(c["payloads"][0])
         extra = [base[:max(0, len(base) - 2)], base[:len(base) // 2], b"", b"GET / HTTP/1.1\r\nHost: a\r\n", b"\x00\xff garbage"]
@@ -122,7 +124,9 @@ def impl_init():
         db = Database()
         pkts = []
         for spec, extra in zip(c["pkts"], c["flagsets"]):
-            spec = dict(spec, flags=spec["flags"] | extra)
+            spec = dict(spec, flags=(extra & 0x1FF) if extra & 0x1000 else (spec["flags"] | extra))
+            if extra in (0x01, 0x04, 0x1018, 0x1011, 0x1004) and not spec.get("payload"):
+                spec["payload"] = "474554202f20485454502f312e300d0a0d0a"          # data after the TCP header
             pkts.append(U.scapy_from_spec(spec))
             pkts.append(constructed(spec))
         bufs = []
